@@ -74,15 +74,17 @@ def chunked(it: Iterable[Any], size: int) -> Iterator[List[Any]]:
 _WORKER: Optional[Callable[[Any, Result], None]] = None
 _ATTRIBUTE: Optional[Callable[[Dict[str, Any], Dict[str, Any]], bool]] = None
 _KNOWN: List[Dict[str, Any]] = []
+_PROP: Optional[str] = None
 
 
 def _init_worker(worker_path: Tuple[str, str], scratch: str) -> None:
-    global _WORKER, _ATTRIBUTE, _KNOWN  # pylint: disable=global-statement
+    global _WORKER, _ATTRIBUTE, _KNOWN, _PROP  # pylint: disable=global-statement
     os.environ["TEALER_ROOT_OUTPUT_DIR"] = os.path.join(scratch, f"out-{os.getpid()}")
     mod = __import__(worker_path[0], fromlist=[worker_path[1]])
     _WORKER = getattr(mod, worker_path[1])
     _ATTRIBUTE = getattr(mod, "attribute", None)
     prop = getattr(mod, "PROP", None)
+    _PROP = prop
     _KNOWN = [k for k in load_known_findings() if k.get("property") == prop and k.get("status") == "known"]
     init = getattr(mod, "worker_init", None)
     if init is not None:
@@ -122,10 +124,17 @@ def _run_chunk(chunk: List[Any]) -> Result:
                         res.count("known:" + hit["id"])
                     else:
                         res.violations.append(v)
-        except Exception:  # pylint: disable=broad-except
-            res.errors.append(
-                "harness error on item %r\n%s" % (item if len(repr(item)) < 2000 else "...", traceback.format_exc())
-            )
+        except Exception as exc:  # pylint: disable=broad-except
+            # an exception raised inside tealer's own code (innermost frame under .../tealer/) on a valid input of the
+            # space means the analysed result the property speaks about does not exist: a violation, not a harness error
+            tb = traceback.extract_tb(exc.__traceback__)
+            inner = tb[-1].filename if tb else ""
+            if "/tealer/" in inner and "/verif/" not in inner and _PROP:
+                res.violation(_PROP + ".analysis-crash", item, error=repr(exc)[:300], where=f"{inner}:{tb[-1].lineno}")
+            else:
+                res.errors.append(
+                    "harness error on item %r\n%s" % (item if len(repr(item)) < 2000 else "...", traceback.format_exc())
+                )
         res.count("items")
     return res
 
